@@ -47,7 +47,7 @@ inductive Act where
   | add (d : Nat)
   | shut (d : Nat)                -- muggle_ev_ctx_shutdown
   | wakeup                        -- muggle_evloop_wakeup
-  | exit                          -- muggle_evloop_exit from the loop thread
+  | exit                          -- muggle_evloop_exit from the loop thread (EXIT + wakeup)
   | xexit                         -- muggle_evloop_exit from another thread
   deriving DecidableEq, Repr
 
@@ -168,7 +168,7 @@ def act (a : Act) (s : St) : St :=
                     setDesc d (s.ds d).shutdown { s with flag := upd s.flag d true }
                   else s
   | .wakeup    => sigWakeup s
-  | .exit      => { s with toExit := 1 }
+  | .exit      => sigWakeup { s with toExit := 1 }   -- since /repo 3dbbf19 also wakes the loop
   | .xexit     => sigWakeup { s with toExit := 2 }
 
 def runActs (as : List Act) (s : St) : St := as.foldl (fun s a => act a s) s
